@@ -772,7 +772,7 @@ func (fr *oFrame) assign(s *ast.AssignStmt) oCtl {
 	if len(s.Rhs) == 1 && len(s.Lhs) > 1 {
 		vals = fr.evalMulti(s.Rhs[0])
 		if len(vals) != len(s.Lhs) {
-			return fr.abort("tuple assignment arity at %s", fr.it.p.Position(s.Pos()))
+			return fr.abort("tuple assignment arity at %s: %d values for %d targets (%s)", fr.it.p.Position(s.Pos()), len(vals), len(s.Lhs), showVal(vals[0]))
 		}
 	} else {
 		for _, r := range s.Rhs {
@@ -1164,7 +1164,22 @@ func (fr *oFrame) eval(e ast.Expr) oval {
 		if sl := fr.info.Selections[x]; sl != nil && sl.Kind() == types.MethodVal {
 			// a method value: the receiver is evaluated now, the call happens later
 			if f, ok := sl.Obj().(*types.Func); ok {
+				// a pointer-receiver method of an addressable struct variable is bound to the
+				// variable itself (&v.m), not to a copy
+				if _, ptrRecv := f.Type().(*types.Signature).Recv().Type().(*types.Pointer); ptrRecv {
+					if _, isPtr := fr.info.TypeOf(x.X).Underlying().(*types.Pointer); !isPtr {
+						if st := fr.structRef(x.X); st != nil {
+							return oBound{f: f, recv: oPtr{st}}
+						}
+					}
+				}
 				return oBound{f: f, recv: fr.eval(x.X)}
+			}
+		}
+		if sl := fr.info.Selections[x]; sl != nil && sl.Kind() == types.MethodExpr {
+			// a method expression T.m / (*T).m: a function whose first argument is the receiver
+			if f, ok := sl.Obj().(*types.Func); ok {
+				return oMethodExpr{f: f}
 			}
 		}
 		if s := fr.structRef(x.X); s != nil {
@@ -1546,7 +1561,7 @@ func (fr *oFrame) call(call *ast.CallExpr) []oval {
 						}
 						return one(abortedTop(sub.why))
 					}
-					return sub.results
+					return boxClosureResults(sub, fn)
 				}
 			}
 		}
@@ -1580,6 +1595,57 @@ func (fr *oFrame) call(call *ast.CallExpr) []oval {
 			if out, ok := fr.it.stub(bd.f, bd.recv, args); ok {
 				return out
 			}
+		}
+		if me, ok := fv.(oMethodExpr); ok {
+			if len(call.Args) == 0 {
+				return one(oTop{"method expression called without a receiver"})
+			}
+			var args []oval
+			for _, a := range call.Args {
+				args = append(args, fr.rvalue(fr.eval(a)))
+			}
+			recv := args[0]
+			args = args[1:]
+			sig := me.f.Type().(*types.Signature)
+			for i := range args {
+				if i < sig.Params().Len() {
+					if _, isIface := sig.Params().At(i).Type().Underlying().(*types.Interface); isIface {
+						args[i] = fr.toIface(args[i])
+					}
+				}
+			}
+			if fr.it.p.Decl(me.f) == nil {
+				if fr.it.stub != nil {
+					if out, ok := fr.it.stub(me.f, recv, args); ok {
+						return out
+					}
+				}
+				return one(oTop{"call to " + me.f.FullName() + " (outside the repo)"})
+			}
+			res, why := fr.it.Call(me.f, recvForMethod(me.f, recv), args, fr.depth+1)
+			if why != "" {
+				if strings.HasPrefix(why, "panic:") && fr.why == "" {
+					fr.why = why
+				}
+				n := sig.Results().Len()
+				if n == 0 {
+					fr.why = why
+					return nil
+				}
+				out := make([]oval, n)
+				for i := range out {
+					out[i] = abortedTop(why)
+				}
+				return out
+			}
+			for i := range res {
+				if i < sig.Results().Len() {
+					if _, isIface := sig.Results().At(i).Type().Underlying().(*types.Interface); isIface {
+						res[i] = fr.toIface(res[i])
+					}
+				}
+			}
+			return res
 		}
 		if fref, ok := fv.(oFuncRef); ok && fr.it.p.Decl(fref.f) != nil {
 			sig := fref.f.Type().(*types.Signature)
@@ -1666,7 +1732,7 @@ func (fr *oFrame) call(call *ast.CallExpr) []oval {
 			}
 			return res
 		}
-		return one(oTop{"dynamic call " + src(call.Fun)})
+		return one(oTop{"dynamic call " + src(call.Fun) + " of " + showVal(fv)})
 	}
 	if f.Pkg() != nil && f.Pkg().Path() == "math" {
 		var args []oval
@@ -2254,7 +2320,28 @@ func (it *oInterp) CallFunc(fn oFunc, args []oval) ([]oval, string) {
 	if ctl == oAbort || strings.HasPrefix(sub.why, "panic:") {
 		return nil, sub.why
 	}
-	return sub.results, ""
+	return boxClosureResults(sub, fn), ""
+}
+
+// boxClosureResults: a concrete value returned through an interface-typed result of a function
+// literal is boxed, as it is for declared functions.
+func boxClosureResults(sub *oFrame, fn oFunc) []oval {
+	info := fn.info
+	if info == nil {
+		info = sub.info
+	}
+	sig, _ := info.TypeOf(fn.lit).(*types.Signature)
+	if sig == nil {
+		return sub.results
+	}
+	for i := range sub.results {
+		if i < sig.Results().Len() {
+			if _, isIface := sig.Results().At(i).Type().Underlying().(*types.Interface); isIface {
+				sub.results[i] = sub.toIface(sub.results[i])
+			}
+		}
+	}
+	return sub.results
 }
 
 // runDefers runs the deferred closures of a frame in reverse order (results were already
@@ -2299,6 +2386,9 @@ func isStringT(t types.Type) bool {
 
 // oFuncRef is a package-level function used as a value.
 type oFuncRef struct{ f *types.Func }
+
+// oMethodExpr is a method expression T.m: called with the receiver as its first argument.
+type oMethodExpr struct{ f *types.Func }
 
 // global returns the cell of a package-level variable of a repo package, initialising the
 // package's variables (and running its init functions) on first use.
